@@ -113,6 +113,16 @@ def pick_bounds(rng, x):
     return float(x[0]), float(x[-1]), False, False, False
 
 
+def after_history(rng, wv, info, x, y):
+    """slicing is about the CURRENT series: put a random domain history in front of it in 2 of 3 cases"""
+    from . import _weaver_ops as W
+    if rng.integers(0, 3) == 0:
+        return x, y
+    info["history"] = W.random_history(rng, wv, 1, 3, allow=W.DOMAIN_OPS, max_len=150)
+    gx, gy = wv.get()
+    return np.array(gx, dtype=float).copy(), np.array(gy, dtype=float).copy()
+
+
 def run_random_case(ctx, kind_, idx):
     from traffic_weaver import Weaver
     from traffic_weaver.process import truncate
@@ -177,6 +187,7 @@ def run_random_case(ctx, kind_, idx):
                     ctx.nontriv("rnd", idx)
             elif mode == "slice_value":
                 wv = Weaver(x.copy(), y.copy())
+                x, y = after_history(rng, wv, info, x, y)
                 n = len(x)
                 a = int(rng.integers(0, n))
                 b = int(rng.integers(a, n))
@@ -203,6 +214,7 @@ def run_random_case(ctx, kind_, idx):
                 ctx.nontriv("rnd", idx)
             else:
                 wv = Weaver(x.copy(), y.copy())
+                x, y = after_history(rng, wv, info, x, y)
                 n = len(x)
                 start = int(rng.integers(0, n + 1))
                 stop = None if rng.integers(0, 4) == 0 else int(rng.integers(0, n + 1))
